@@ -6,11 +6,16 @@ from fractions import Fraction
 import numpy as np
 
 import arch_util as au
+import py2v_arch
 
 CONFIG = {
     "cone": ["Base/ListUtil.v", "Base/QUtil.v", "Base/FirstArgmax.v", "Model/Store.v", "Proofs/StoreProofs.v", "Model/Archive.v",
-             "Proofs/ArchiveProofs.v", "Proofs/C01Proofs.v", "Proofs/C02Proofs.v", "Properties/C02.v"],
-    "trusted": ["Model/Archive.v (see C01); ProximityArchive with local competition reuses the same transform and is exercised by the C14 check",
+             "Proofs/ArchiveProofs.v", "Proofs/C01Proofs.v", "Proofs/C02Proofs.v", "Generated/TransGen.v", "Refine/TransRefine.v", "Properties/C02.v"],
+    "extra_property_files": ["Refine/TransRefine.v"],
+    "trusted": ["harness/py2v_arch.py: fail-closed ast translator of single_entry_with_threshold and of the ratio/new_threshold expressions of "
+                "_compute_thresholds into Generated/TransGen.v on every run; Refine/TransRefine.v proves them equal to the model for all arguments "
+                "(the numpy-vectorised batch transform itself is tied by the correspondence run only)",
+                "Model/Archive.v (see C01); ProximityArchive with local competition reuses the same transform and is exercised by the C14 check",
                 "SlidingBoundariesArchive.add is its documented loop of add_single, so 'the archive before the call' is per inserted solution there",
                 "value is compared against the correctly rounded exact difference (single rounding)"],
     "level_text": "Theorems C02_pointwise / C02_single_feedback: for every reachable archive state and every batch, the model's feedback is "
@@ -20,7 +25,7 @@ CONFIG = {
                   "(CMA-MAE) with objectives placed exactly at / one ulp around the current thresholds.",
     "level_note": "Trusted: Coq kernel; extraction + driver; hand-written model tied by sampling; harness. No axioms. Exact arithmetic in the "
                   "model; floats only enter through the harness's rounding of the exact value.",
-    "technique": "Rocq/Coq proof (pointwise judge spec) + model-vs-implementation correspondence (whole-history and step-wise simulation)",
+    "technique": "source-derived fragments (py2v translator + refinement lemmas) + Rocq/Coq proof (pointwise judge spec) + model-vs-implementation correspondence (whole-history and step-wise simulation)",
     "design_ref": "DESIGN.md section 5, C02",
 }
 
@@ -88,6 +93,7 @@ def nontrivial(case):
 
 
 def check(rep, tier, seed, driver):
+    py2v_arch.report(rep)
     rng = random.Random(seed)
     n = 300 if tier == "quick" else 6000
     rep.rule = ("(a) elitist archives, whole-history comparison, wild floats; (b) CMA-MAE and elitist archives, step-wise simulation from the "
